@@ -22,10 +22,11 @@ VARIABLES cfgs, metas,   \* layout: cache key -> cfg / wrapper attributes   (con
           cs,            \* cache key -> cache state
           ver,           \* next body result
           pending,       \* the executed call waiting for its CallFin, or NoPending
+          susp,          \* async calls suspended at an await inside their body: set of [n, k]
           gs, xs, usedK, pm,   \* ghosts, as in the trace specification
           last           \* record of the last step
 
-svars == <<cfgs, metas, cs, ver, pending, gs, xs, usedK, pm, last>>
+svars == <<cfgs, metas, cs, ver, pending, susp, gs, xs, usedK, pm, last>>
 
 NoPending == [n |-> "", k |-> ""]
 
@@ -40,6 +41,7 @@ InitWith(Layouts) ==
   /\ cs = [n \in DOMAIN cfgs |-> EmptyCache]
   /\ ver = 0
   /\ pending = NoPending
+  /\ susp = {}
   /\ gs = [n \in DOMAIN cfgs |-> G0]
   /\ xs = [n \in DOMAIN cfgs |-> X0]
   /\ usedK = {}
@@ -79,14 +81,12 @@ CallGet(n, k, verdict) ==
      IN /\ (~consulted => verdict = 0)      \* the verdict is an input only when consulted
         /\ Book(r, [cs EXCEPT ![n] = post])
         /\ pending' = IF exec THEN [n |-> n, k |-> k] ELSE NoPending
-        /\ UNCHANGED ver
+        /\ UNCHANGED <<ver, susp>>
 
-CallFin(ok, cifv, size) ==
-  /\ ~Idle
+\* the rest of an executed call for (n, k): body result, cache_if consultation, conditional store
+FinOf(n, k, ok, cifv, size) ==
   /\ ver < MaxVer
-  /\ LET n == pending.n
-         k == pending.k
-         cfg == cfgs[n]
+  /\ LET cfg == cfgs[n]
          meta == metas[n]
          mem == cfg.maxmem # 0
          v == ver + 1
@@ -104,14 +104,61 @@ CallFin(ok, cifv, size) ==
                                                ELSE {[c |-> cs[n], panic |-> FALSE]}) :
              Book([r0 EXCEPT !.panic = s.panic], [cs EXCEPT ![n] = s.c])
         /\ ver' = v
-        /\ pending' = NoPending
+
+CallFin(ok, cifv, size) ==
+  /\ ~Idle
+  /\ FinOf(pending.n, pending.k, ok, cifv, size)
+  /\ pending' = NoPending
+  /\ UNCHANGED susp
+
+-----------------------------------------------------------------------------
+(* async calls with await points inside the body (C20): the call is suspended after its lookup  *)
+(* (holding nothing), other operations run meanwhile, and it is later resumed - its store then   *)
+(* happens against the CURRENT state - or dropped, which leaves no trace.                         *)
+
+StartSusp(n, k, verdict) ==
+  /\ metas[n].kind = "async"
+  /\ [n |-> n, k |-> k] \notin susp
+  /\ Idle
+  /\ LET cfg == cfgs[n]
+         meta == metas[n]
+         pre == cs[n]
+         g == Get(cfg, pre, k)
+         present == k \in Dom(pre) /\ ~Expired(cfg, pre.store[k])
+         consulted == meta.hasInv /\ present
+         inv == IF consulted THEN verdict ELSE -1
+         exec == ~present \/ inv = 1
+         r == [Rec0 EXCEPT !.ev = "get", !.n = n, !.k = k, !.ret = g.ret, !.exec = exec,
+                           !.inv = inv, !.invn = IF consulted THEN 1 ELSE 0,
+                           !.invkey = IF consulted THEN k ELSE "",
+                           !.invval = IF consulted THEN pre.store[k].val ELSE -1,
+                           !.cret = IF exec THEN -1 ELSE g.ret]
+     IN /\ (~consulted => verdict = 0)
+        /\ exec                       \* a hit completes at once (that is CallGet)
+        /\ Book(r, [cs EXCEPT ![n] = g.c])
+        /\ susp' = susp \cup {[n |-> n, k |-> k]}
+        /\ UNCHANGED <<ver, pending>>
+
+ResumeSusp(task, ok, cifv, size) ==
+  /\ Idle
+  /\ task \in susp
+  /\ FinOf(task.n, task.k, ok, cifv, size)
+  /\ susp' = susp \ {task}
+  /\ UNCHANGED pending
+
+DropSusp(task) ==
+  /\ Idle
+  /\ task \in susp
+  /\ Book([Rec0 EXCEPT !.ev = "drop", !.n = task.n, !.k = task.k], cs)
+  /\ susp' = susp \ {task}
+  /\ UNCHANGED <<ver, pending>>
 
 TickAll ==
   /\ Idle
   /\ \E n \in DOMAIN cs : cfgs[n].ttl # 0 /\ Dom(cs[n]) # {}
   /\ \A n \in DOMAIN cs : \A k \in Dom(cs[n]) : cs[n].store[k].age <= cfgs[n].ttl
   /\ Book([Rec0 EXCEPT !.ev = "tick", !.d = 1], [n \in DOMAIN cs |-> Tick(cs[n], 1)])
-  /\ UNCHANGED <<ver, pending>>
+  /\ UNCHANGED <<ver, pending, susp>>
 
 -----------------------------------------------------------------------------
 (* invalidation registry: only functions that have been called are registered *)
@@ -121,14 +168,14 @@ InvGroup(kind, x) ==
   /\ LET T == GroupTargets(kind, x, metas, usedK)
          r == [Rec0 EXCEPT !.ev = kind, !.x = x, !.count = GroupCount(kind, x, pm)]
      IN Book(r, [n \in DOMAIN cs |-> IF n \in T THEN Clear(cs[n]) ELSE cs[n]])
-  /\ UNCHANGED <<ver, pending>>
+  /\ UNCHANGED <<ver, pending, susp>>
 
 InvName(x) ==
   /\ Idle
   /\ LET T == NameTargets(x, metas, usedK)
          r == [Rec0 EXCEPT !.ev = "inv_name", !.x = x, !.found = (x \in DOMAIN pm /\ HasMeta(pm[x]))]
      IN Book(r, [n \in DOMAIN cs |-> IF n \in T THEN Clear(cs[n]) ELSE cs[n]])
-  /\ UNCHANGED <<ver, pending>>
+  /\ UNCHANGED <<ver, pending, susp>>
 
 SetAsSeq(S) == CHOOSE s \in [1..Cardinality(S) -> S] : \A i, j \in DOMAIN s : s[i] = s[j] => i = j
 
@@ -137,7 +184,7 @@ InvWith(x, S) ==
   /\ LET T == {n \in usedK : metas[n].cacheName = x}
          r == [Rec0 EXCEPT !.ev = "inv_with", !.x = x, !.sel = SetAsSeq(S), !.found = (x \in DOMAIN pm)]
      IN Book(r, [n \in DOMAIN cs |-> IF n \in T THEN RemoveKeys(cs[n], S) ELSE cs[n]])
-  /\ UNCHANGED <<ver, pending>>
+  /\ UNCHANGED <<ver, pending, susp>>
 
 \* sel : cacheName -> set of keys
 InvAllWith(sel) ==
@@ -147,7 +194,7 @@ InvAllWith(sel) ==
                            !.count = Cardinality(DOMAIN pm)]
      IN Book(r, [n \in DOMAIN cs |->
                    IF n \in usedK THEN RemoveKeys(cs[n], sel[metas[n].cacheName]) ELSE cs[n]])
-  /\ UNCHANGED <<ver, pending>>
+  /\ UNCHANGED <<ver, pending, susp>>
 
 StatsGet(x) ==
   /\ Idle
@@ -156,14 +203,14 @@ StatsGet(x) ==
                            !.hits = IF T = {} THEN 0 ELSE cs[CHOOSE n \in T : TRUE].hitsS,
                            !.misses = IF T = {} THEN 0 ELSE cs[CHOOSE n \in T : TRUE].missS]
      IN Book(r, cs)
-  /\ UNCHANGED <<ver, pending>>
+  /\ UNCHANGED <<ver, pending, susp>>
 
 StatsReset(x) ==
   /\ Idle
   /\ LET T == {n \in usedK : metas[n].cacheName = x}
          r == [Rec0 EXCEPT !.ev = "stats_reset", !.x = x, !.found = (x \in DOMAIN pm)]
      IN Book(r, [n \in DOMAIN cs |-> IF n \in T THEN NoStats(cs[n]) ELSE cs[n]])
-  /\ UNCHANGED <<ver, pending>>
+  /\ UNCHANGED <<ver, pending, susp>>
 
 -----------------------------------------------------------------------------
 (* properties *)
